@@ -131,6 +131,9 @@ func (w *Watcher) getGovernanceEventsByTxId(
 		if event.ContractAddress != address {
 			continue
 		}
+		if event.BlockHash != blockHash {
+			continue
+		}
 
 		header, err := client.GetBlockHeader(ctx, event.BlockHash)
 		if err != nil {
